@@ -293,7 +293,7 @@ theorem link_step (cb : Nat → Value → Bool) (t1 t : Table) (i : Nat) (h : Lo
     · subst hji
       rw [he1] at he
       have := Option.some.inj he; subst this
-      exact ⟨k, off, hloc, by simp [List.getElem?_set, hil]⟩
+      exact ⟨k, off, hloc, by simp [hil]⟩
     · obtain ⟨k', off', l1, l2⟩ := h.done j e (by omega) he
       refine ⟨k', off', l1, ?_⟩
       simp only [List.getElem?_set]
@@ -307,9 +307,12 @@ theorem link_step (cb : Nat → Value → Bool) (t1 t : Table) (i : Nat) (h : Lo
     obtain ⟨d1, d2⟩ := h.defaults j e k' off' a1 hj he hl ha hn
     refine ⟨d1, fun hb => ?_⟩
     rw [← d2 hb]
-    apply get_congr _ _ _ rfl rfl rfl
-    simp only [List.getElem?_set]
-    rw [if_neg (by omega)]
+    refine get_congr t _ j ?_ ?_ ?_ ?_
+    · rfl
+    · rfl
+    · rfl
+    · simp only [List.getElem?_set]
+      rw [if_neg (by omega)]
 
 /-- a register whose area does not load defaults needs nothing more -/
 theorem skip_step (cb : Nat → Value → Bool) (t1 t : Table) (i : Nat) (h : LoadInv cb t1 (i + 1) i t) (e1 : Entry) (k off : Nat)
@@ -346,5 +349,186 @@ theorem area_of_geo (t t1 : Table) (hg : t.areas.map strip = t1.areas.map strip)
   | none => rw [ha] at this; simp at this
   | some a => rw [ha] at this; exact ⟨a, rfl, by simpa using this⟩
 
+theorem strip_write (a a' : Area) (hm : a' = { a with mem := a'.mem }) : strip a' = strip a := by
+  rw [hm]; rfl
+
+/-- loading the default of register `i` (its area loads defaults): it succeeds exactly when the default is
+    acceptable, and then the loop state advances -/
+theorem load_step (cb : Nat → Value → Bool) (t1 t : Table) (i : Nat) (hord : Ordered (entryGeo t1))
+    (h : LoadInv cb t1 (i + 1) i t) (e1 : Entry) (k off : Nat) (a1 : Area) (he1 : t1.entries[i]? = some e1)
+    (hloc : reg_entry_is_in_memory t1 e1 = some (k, off)) (ha1 : t1.areas[k]? = some a1)
+    (hn : need_to_load_default a1 = true) :
+    ((register_set cb t i ⟨e1.type, e1.default⟩).1.code = .success ↔ DefaultOk cb t1.bigEndian e1) ∧
+    ((register_set cb t i ⟨e1.type, e1.default⟩).1.code = .success →
+      LoadInv cb t1 (i + 1) (i + 1) (register_set cb t i ⟨e1.type, e1.default⟩).2) := by
+  -- the linked entry
+  have he' : t.entries[i]? = some { e1 with area := k, offset := off } := by
+    obtain ⟨k', off', l1, l2⟩ := h.done i e1 (by omega) he1
+    rw [hloc] at l1; simp only [Option.some.injEq, Prod.mk.injEq] at l1
+    obtain ⟨rfl, rfl⟩ := l1
+    exact l2
+  obtain ⟨a1', ha1', hin, hoff⟩ := located_some t1 e1 k off hloc
+  rw [ha1] at ha1'; have := Option.some.inj ha1'; subst this
+  obtain ⟨a, ha, hsa⟩ := area_of_geo t t1 h.geo k a1 ha1
+  obtain ⟨fb, fs, fw, fn⟩ := strip_flags a a1 hsa
+  have hw : a.hasWrite = true := by
+    rw [fw]; simp only [need_to_load_default, Bool.and_eq_true] at hn; exact hn.1
+  have hsz : a.mem.length = a.size := h.sized a (List.mem_of_getElem? ha)
+  have hfit : off + e1.type.size ≤ a.mem.length := by
+    rw [hsz, fs, hoff]; have := hin.1; have := hin.2; omega
+  have hiff := set_default_iff cb t i { e1 with area := k, offset := off } a h.init h.during he' ha hw hfit
+  have hdo : DefaultOk cb t.bigEndian { e1 with area := k, offset := off } ↔ DefaultOk cb t1.bigEndian e1 := by
+    simp only [DefaultOk, h.endian]
+    rw [checkOk_congr cb true e1 { e1 with area := k, offset := off } ⟨e1.type, e1.default⟩ rfl rfl]
+  refine ⟨hiff.trans hdo, ?_⟩
+  intro hok
+  have hdok : DefaultOk cb t1.bigEndian e1 := (hiff.trans hdo).mp hok
+  rcases hres : register_set cb t i ⟨e1.type, e1.default⟩ with ⟨⟨code, adr⟩, t'⟩
+  rw [hres] at hok
+  simp only at hok
+  subst hok
+  obtain ⟨_, e, a0, raw, a', he, _, ha0, _, hser, hwr, ht'⟩ :=
+    Ufw.Props.C01.set_success_inv cb t t' i ⟨e1.type, e1.default⟩ true adr hres
+  rw [he'] at he; have := Option.some.inj he; subst this
+  simp only at ha0 hser hwr ht'
+  rw [ha] at ha0; have := Option.some.inj ha0; subst this
+  obtain ⟨hm, hlen, hcells⟩ := write_cells a a' off raw hwr
+  have hrl : raw.length = e1.type.size := ser_length _ _ _ _ hser
+  subst ht'
+  refine ⟨h.init, h.during, h.endian, ?_, ?_, h.len, h.done, h.rest, ?_, ?_⟩
+  · show (t.areas.set k a').map strip = t1.areas.map strip
+    rw [map_strip_set t.areas k a a' ha (strip_write a a' hm)]; exact h.geo
+  · intro x hx
+    rcases List.mem_or_eq_of_mem_set hx with hx | hx
+    · exact h.sized x hx
+    · subst hx
+      have : x.size = a.size := by rw [hm]
+      rw [hlen, this]; exact hsz
+  · intro j ej kj offj aj hj hej hlj haj hnj
+    by_cases hji : j = i
+    · subst hji
+      rw [he1] at hej; have := Option.some.inj hej; subst this
+      refine ⟨hdok, fun hb => ?_⟩
+      exact Ufw.Props.C01.checked_set_get cb t _ j ⟨e1.type, e1.default⟩ adr hres hb
+    · obtain ⟨d1, d2⟩ := h.defaults j ej kj offj aj (by omega) hej hlj haj hnj
+      refine ⟨d1, fun hb => ?_⟩
+      rw [← d2 hb]
+      apply Ufw.Props.C05.set_other_get_pair cb t _ i j ⟨e1.type, e1.default⟩ true adr hres
+      intro x y hx hy
+      rw [he'] at hx; have := Option.some.inj hx; subst this
+      obtain ⟨kj', offj', m1, m2⟩ := h.done j ej (by omega) hej
+      rw [hlj] at m1; simp only [Option.some.injEq, Prod.mk.injEq] at m1
+      obtain ⟨rfl, rfl⟩ := m1
+      rw [m2] at hy; have := Option.some.inj hy; subst this
+      by_cases hk : k = kj
+      · subst hk
+        rw [ha1] at haj; have := Option.some.inj haj; subst this
+        obtain ⟨aj', haj', hinj, hoffj⟩ := located_some t1 ej k offj hlj
+        rw [ha1] at haj'; have := Option.some.inj haj'; subst this
+        have := ordered_entries t1 hord j i ej e1 (by omega) hej he1
+        right; right
+        show offj + ej.type.size ≤ off
+        have := hinj.1; have := hin.1
+        omega
+      · left; exact hk
+  · intro k' x x1 hx hx1 c hc
+    by_cases hk : k' = k
+    · subst hk
+      rw [set_getElem t.areas k' a a' ha] at hx
+      have := Option.some.inj hx; subst this
+      rw [ha1] at hx1; have := Option.some.inj hx1; subst this
+      rw [hcells c]
+      have hnot := hc i e1 off (by omega) he1 hloc hn
+      rw [hrl, if_neg hnot]
+      apply h.cells k' a a1 ha ha1 c
+      intro j ej offj hj hej hlj hnj
+      exact hc j ej offj (by omega) hej hlj hnj
+    · have : (t.areas.set k a')[k']? = t.areas[k']? := by
+        simp only [List.getElem?_set]
+        rw [if_neg (fun hh => hk hh.symm)]
+      rw [this] at hx
+      apply h.cells k' x x1 hx hx1 c
+      intro j ej offj hj hej hlj hnj
+      exact hc j ej offj (by omega) hej hlj hnj
+
+/-- how `register_init` gives up -/
+abbrev failWith (c : InitCode) (p : Nat) (t : Table) : InitRes × Table :=
+  (⟨c, p⟩, { t with initialised := false, duringInit := false })
+
+/-- loading stops at register `p` with code `c` -/
+def FailsAt (cb : Nat → Value → Bool) (t1 : Table) (c : InitCode) (p : Nat) : Prop :=
+  ∃ e1, t1.entries[p]? = some e1 ∧
+    ((c = .entryInMemoryHole ∧ reg_entry_is_in_memory t1 e1 = none) ∨
+     (c = .entryInvalidDefault ∧ ∃ k off a1, reg_entry_is_in_memory t1 e1 = some (k, off) ∧ t1.areas[k]? = some a1 ∧
+        need_to_load_default a1 = true ∧ ¬ DefaultOk cb t1.bigEndian e1))
+
+/-- the loop as a whole: either every register is linked and loaded, or it stops at the first register that is
+    located nowhere or whose default is refused -/
+theorem load_spec (cb : Nat → Value → Bool) (t1 : Table) (hord : Ordered (entryGeo t1)) :
+    ∀ (todo i : Nat) (t : Table), LoadInv cb t1 i i t → i + todo = t1.entries.length →
+      ((register_init.load cb failWith todo i t).1 = ⟨.success, 0⟩ ∧
+        LoadInv cb t1 t1.entries.length t1.entries.length (register_init.load cb failWith todo i t).2) ∨
+      (∃ p tp, i ≤ p ∧ LoadInv cb t1 p p tp ∧ FailsAt cb t1 (register_init.load cb failWith todo i t).1.code p ∧
+        (register_init.load cb failWith todo i t).1.pos = p ∧
+        (register_init.load cb failWith todo i t).2.initialised = false) := by
+  intro todo
+  induction todo with
+  | zero =>
+    intro i t h hlen
+    left
+    have : i = t1.entries.length := by omega
+    subst this
+    refine ⟨by simp only [register_init.load], ?_⟩
+    simp only [register_init.load]
+    exact h
+  | succ todo ih =>
+    intro i t h hlen
+    have hil : i < t1.entries.length := by omega
+    have he1 : t1.entries[i]? = some t1.entries[i] := List.getElem?_eq_getElem hil
+    generalize t1.entries[i] = e1 at he1
+    have het : t.entries[i]? = some e1 := by rw [h.rest i (Nat.le_refl _)]; exact he1
+    simp only [register_init.load, het, located_congr t t1 e1 h.geo]
+    cases hloc : reg_entry_is_in_memory t1 e1 with
+    | none =>
+      right
+      exact ⟨i, t, Nat.le_refl _, h, ⟨e1, he1, Or.inl ⟨rfl, hloc⟩⟩, rfl, rfl⟩
+    | some v =>
+      obtain ⟨k, off⟩ := v
+      simp only
+      have h2 := link_step cb t1 t i h e1 k off he1 hloc
+      obtain ⟨a1, ha1, _, _⟩ := located_some t1 e1 k off hloc
+      obtain ⟨a, ha, hsa⟩ := area_of_geo t t1 h.geo k a1 ha1
+      simp only [ha]
+      obtain ⟨_, _, _, fn⟩ := strip_flags a a1 hsa
+      cases hn : need_to_load_default a1 with
+      | false =>
+        rw [fn, hn]
+        simp only [Bool.false_eq_true, ↓reduceIte]
+        rcases ih (i + 1) _ (skip_step cb t1 _ i h2 e1 k off a1 he1 hloc ha1 hn) (by omega) with r | ⟨p, tp, hp, r⟩
+        · exact Or.inl r
+        · exact Or.inr ⟨p, tp, by omega, r⟩
+      | true =>
+        rw [fn, hn]
+        simp only [↓reduceIte]
+        obtain ⟨s1, s2⟩ := load_step cb t1 _ i hord h2 e1 k off a1 he1 hloc ha1 hn
+        rcases hres : register_set cb { t with entries := t.entries.set i { e1 with area := k, offset := off } } i
+            ⟨e1.type, e1.default⟩ with ⟨⟨code, adr⟩, t'⟩
+        rw [hres] at s1 s2
+        simp only at s1 s2
+        by_cases hc : code = .success
+        · subst hc
+          simp only
+          rcases ih (i + 1) t' (s2 rfl) (by omega) with r | ⟨p, tp, hp, r⟩
+          · exact Or.inl r
+          · exact Or.inr ⟨p, tp, by omega, r⟩
+        · right
+          have hnd : ¬ DefaultOk cb t1.bigEndian e1 := fun hd => hc (s1.mpr hd)
+          refine ⟨i, t, Nat.le_refl _, h, ?_, ?_, ?_⟩
+          · cases code <;> first | exact absurd rfl hc | exact ⟨e1, he1, Or.inr ⟨rfl, k, off, a1, hloc, ha1, hn, hnd⟩⟩
+          · cases code <;> first | exact absurd rfl hc | rfl
+          · cases code <;> first | exact absurd rfl hc | rfl
+
 end Ufw.Lemmas.RegInit
+
+
 
